@@ -9,6 +9,7 @@ CONSTANT MaxStale = 2
 CONSTANT MaySilence = FALSE
 CONSTANT ConfPerTwice = 2
 CONSTANT FlushAfterConfirm = FALSE
+CONSTANT FlushAt = "acquired"
 INVARIANT TypeOK
 INVARIANT WriteByOwner
 INVARIANT TxnAtomic
